@@ -202,6 +202,9 @@ def gen_stat(rng, thorough):
     for k in RADIAL:
         for j in range(2 if thorough else 1):
             sc, sh = law_params(rng, k)
+            if k == "powerlaw":
+                # larger exponents make (u/xmin)^(1-alpha) exceed the range of long in lround
+                sc, sh = rng.choice([(2.5, 1.0), (2.5, 3.0), (3.0, 1.0)])
             typical = sc * sh if k == "gamma" else (sh if k == "powerlaw" else (1.0 if k == "lognormal" else sc))
             ew = typical / rng.choice([40.0, 64.0])
             ns = ew * rng.choice([1.0, 0.5, 3.0])
@@ -211,6 +214,8 @@ def gen_stat(rng, thorough):
     for which in ("nat", "ant"):
         for k in rng.sample(sorted(RADIAL), 4 if thorough else 2):
             sc, sh = law_params(rng, k)
+            if k == "powerlaw":
+                sc, sh = rng.choice([(2.5, 1.0), (2.5, 3.0), (3.0, 1.0)])
             typical = sc * sh if k == "gamma" else (sh if k == "powerlaw" else (1.0 if k == "lognormal" else sc))
             ew = typical / 40.0
             ns = ew * rng.choice([0.5, 3.0])
@@ -302,10 +307,12 @@ def expected_class(which, idx, stochastic):
     return "radial" if stochastic else "deterministic"
 
 
-def monitor(cases, out, ctx):
+def monitor(cases, out, ctx, skip=()):
     st = {"N": 0, "T": 0, "D": 0, "M": 0, "U": 0, "F": 0, "G": 0, "G_draws": 0, "R": 0, "K": 0, "B": 0,
           "names_accepted": 0, "names_rejected": 0, "max_ks": {}, "max_rad": {}}
     for k, line in enumerate(cases):
+        if k in skip:
+            continue
         t = line.split()
         lines = out.get(k, [])
         first = lines[0] if lines else ""
@@ -452,7 +459,8 @@ def monitor(cases, out, ctx):
                 dirn, kap = t[4], float(t[5])
                 if dirn == "NONE" or kap == 0:
                     # uniform angle: every quadrant close to a quarter (cells on the axes are not counted)
-                    if sum(q) >= 400 and min(q) < 0.22 * sum(q):
+                    tot = sum(q)
+                    if tot >= 400 and min(q) < tot / 4.0 - 6 * math.sqrt(tot * 3 / 16.0) - 0.02 * tot:
                         ctx.violation("C13.direction.uniform_angle", "no direction / kappa 0: quadrant counts NE,SE,SW,NW = %s of %d" % (q, n), line)
                 else:
                     sr, sc = COMPASS[dirn]
@@ -501,9 +509,33 @@ def run_engine(ctx, cases_path):
         ctx.broke("harness kernels.cpp builds against the library", err)
         return None, None
     impl = os.path.join(ctx.work, "impl.out")
-    rc, e = vc.run_to_file([h, cases_path], impl)
-    if rc != 0:
-        ctx.broke("implementation harness run (exit %d)" % rc, e)
+    ncases = len(vc.read_cases(cases_path))
+    start, parts, aborted = 0, [], []
+    for attempt in range(8):
+        part = impl + ".part%d" % attempt
+        rc, e = vc.run_to_file([h, cases_path, str(start)], part)
+        parts.append(part)
+        if rc == 0:
+            break
+        # the harness died (sanitizer abort, uncaught exception): the first case
+        # without output is the one that killed it; go on behind it
+        done = set(group_output(part))
+        k = start
+        while k in done:
+            k += 1
+        if k >= ncases:
+            break
+        aborted.append((k, rc, e))
+        start = k + 1
+    else:
+        ctx.broke("implementation harness keeps aborting", "\n".join("case %d exit %d: %s" % a for a in aborted))
+    with open(impl, "w") as f:
+        ab = set(a[0] for a in aborted)
+        for part in parts:
+            for line in open(part, errors="replace"):
+                if line.split(" ", 1)[0].isdigit() and int(line.split(" ", 1)[0]) not in ab:
+                    f.write(line)
+    ctx.harness_aborts = aborted
     # the generated tables may have been rewritten by a concurrent check of another tree
     tp = vc.run([os.sys.executable, os.path.join(vc.VERIF, "translate", "kernel_tables.py"), vc.REPO,
                  os.path.join(vc.COQ, "theories")], timeout=120)
@@ -565,7 +597,15 @@ def check(ctx, replay=None):
     if impl is None:
         return
     out = group_output(impl)
-    stats = monitor(cases, out, ctx)
+    for k, rc, e in getattr(ctx, "harness_aborts", []):
+        # a run of the library that ends in a sanitizer abort / crash is a failing input
+        t = cases[k].split()
+        kn = t[2] if t[0] == "RF" else (t[1] if t[0] in ("R", "K") else (t[4] if t[0] == "G" else (t[5] if t[0] == "GF" else t[0])))
+        last = [l for l in e.strip().split("\n") if l.strip()][-3:]
+        ctx.violation(LAW_KEY.get(kn, "C13.run." + kn) + ".abort", "the library aborted (exit %d) on this case: %s" % (rc, " | ".join(last)[:300]),
+                      cases[k], e)
+        out[k] = ["aborted"]
+    stats = monitor(cases, out, ctx, skip=set(a[0] for a in getattr(ctx, "harness_aborts", [])))
     ncmp, diffs = 0, []
     if model is not None:
         ncmp, diffs = vc.diff_outputs(impl, model, relevant)
